@@ -3,6 +3,7 @@ package c05
 import (
 	"fmt"
 	"sort"
+	"strings"
 	"testing"
 
 	"pgregory.net/rapid"
@@ -143,6 +144,21 @@ func (e *env) excludeReAdd(op aclgen.Op) (aclgen.Op, bool, bool) {
 	return op, true, false
 }
 
+// refusedJoin only labels an observation that is outside the statement: an open invite created
+// by the very record that removes a member (and so rotates the key) embeds the PRE-rotation key;
+// until a later rotation re-keys it, the joiner's own builder refuses to build the join.
+func (e *env) refusedJoin(op aclgen.Op, buildErr string) {
+	if op.Kind != "invite_join" || !strings.Contains(buildErr, "failed to decrypt key") {
+		return
+	}
+	w := e.w
+	for _, it := range e.invList {
+		if it.inv.Anyone && it.inv.Live && it.created > 0 && w.M.GenAt[it.created] > w.M.GenAt[it.created-1] && it.created == e.gens[len(e.gens)-1].rec {
+			e.classes["join-through-removal-batch-invite-refused"] = true
+		}
+	}
+}
+
 func run(c Case) (vstat.Outcome, error) {
 	var out vstat.Outcome
 	if c.N < 2 || c.N > 10 {
@@ -193,6 +209,7 @@ func run(c Case) (vstat.Outcome, error) {
 				}
 				if !st.Accepted {
 					nRefused++
+					e.refusedJoin(op, st.BuildErr)
 					continue
 				}
 				nAccepted++
@@ -319,7 +336,7 @@ func genCase(rt *rapid.T) Case {
 		}
 	}
 	for nOps < target {
-		switch rapid.IntRange(0, 28).Draw(rt, "shape") {
+		switch rapid.IntRange(0, 31).Draw(rt, "shape") {
 		case 0, 1, 2: // join by request + accept (or decline / cancel)
 			x := nonMember("x")
 			op(aclgen.Op{Kind: "invite", Actor: manager("a")})
@@ -456,6 +473,55 @@ func genCase(rt *rapid.T) Case {
 			}
 			op(aclgen.Op{Kind: "batch", Actor: owner, Sub: sub})
 			guess[r] = aclgen.None
+		case 29: // one record removes a member and creates an invite (maybe adds too); an outsider joins through it
+			r := memberNotOwner("nr")
+			p := goodPerm.Draw(rt, "np")
+			sub := []aclgen.Op{{Kind: "remove", Target: r}, {Kind: "new_invite", Perm: rapid.SampledFrom([]int{p, p, p, aclgen.None}).Draw(rt, "nk")}}
+			if x := nonMember("na"); x != r && rapid.Bool().Draw(rt, "nadd") {
+				sub = append(sub, aclgen.Op{Kind: "add", Target: x, Perm: aclgen.Writer})
+				guess[x] = aclgen.Writer
+			}
+			op(aclgen.Op{Kind: "batch", Actor: owner, Sub: sub})
+			guess[r] = aclgen.None
+			if rapid.Bool().Draw(rt, "nw") {
+				write()
+			}
+			x := nonMember("nx")
+			if sub[1].Perm == aclgen.None {
+				op(aclgen.Op{Kind: "request_join", Actor: x, Ref: -1})
+				op(aclgen.Op{Kind: "accept", Actor: owner, Target: x, Perm: p})
+			} else {
+				op(aclgen.Op{Kind: "invite_join", Actor: x, Ref: -1})
+			}
+			guess[x] = p
+			write()
+		case 30, 31: // an account's open tree keeps receiving changes while the account is out; the
+			// account is admitted again WITHOUT another rotation and writes through the same tree
+			x := nonMember("ox")
+			if rapid.Bool().Draw(rt, "oexisting") {
+				x = memberNotOwner("ox2")
+			} else {
+				op(aclgen.Op{Kind: "add", Actor: owner, Target: x, Perm: aclgen.Writer})
+			}
+			c.Steps = append(c.Steps, Step{W: &Write{Author: rapid.IntRange(0, 7).Draw(rt, "wa"), Len: 40, Pref: x + 1}})
+			op(aclgen.Op{Kind: "remove", Actor: owner, Target: x})
+			write()
+			switch rapid.IntRange(0, 3).Draw(rt, "ohow") {
+			case 0, 1:
+				op(aclgen.Op{Kind: "add", Actor: owner, Target: x, Perm: aclgen.Writer})
+			case 2:
+				op(aclgen.Op{Kind: "invite", Actor: owner})
+				op(aclgen.Op{Kind: "request_join", Actor: x, Ref: -1})
+				op(aclgen.Op{Kind: "accept", Actor: owner, Target: x, Perm: aclgen.Writer})
+			case 3:
+				op(aclgen.Op{Kind: "invite_anyone", Actor: owner, Perm: aclgen.Writer})
+				op(aclgen.Op{Kind: "invite_join", Actor: x, Ref: -1})
+			}
+			guess[x] = aclgen.Writer
+			if rapid.IntRange(0, 2).Draw(rt, "oread") == 0 {
+				write() // somebody else writes first: the returning account reads through its open tree
+			}
+			c.Steps = append(c.Steps, Step{W: &Write{Author: rapid.IntRange(0, 7).Draw(rt, "wa"), Len: 40, Pref: x + 1}})
 		case 24, 25, 26: // tree write
 			write()
 		case 27: // a forged rotation with the right number of wrong recipients (must be rejected)
